@@ -10,6 +10,7 @@ package safelog
 
 import (
 	"fmt"
+	"sort"
 	"strings"
 	"testing"
 
@@ -20,10 +21,19 @@ import (
 // recorder is the log sink: it keeps a copy of the argument of every Write call.
 type recorder struct {
 	calls []string
+	// failCall/failAfter: the failCall-th Write (1-based; 0: never) accepts failAfter bytes and returns an error
+	failCall, failAfter int
 }
 
 func (r *recorder) Write(p []byte) (int, error) {
 	r.calls = append(r.calls, string(p))
+	if r.failCall != 0 && len(r.calls) == r.failCall {
+		k := r.failAfter
+		if k > len(p) {
+			k = len(p)
+		}
+		return k, fmt.Errorf("no space left on device")
+	}
 	return len(p), nil
 }
 
@@ -190,6 +200,9 @@ func TestVerifEnum(t *testing.T) {
 					break
 				}
 				checkSplits(r, fails, a+"\n"+b+term)
+				if term == "\n" && !strings.Contains(a+b, "\r") {
+					checkFailingSink(r, fails, []string{a, b})
+				}
 			}
 		}
 	}
@@ -262,6 +275,62 @@ func writeSplitMode(parts []string, mode int) (rec *recorder, badReturn string) 
 		}
 	}
 	return
+}
+
+// checkFailingSink: the sink fails once, part-way through a flush, and logging goes on.  Whatever the
+// scrubber does about the failed flush (repeat it, drop it), everything it hands to the sink must still
+// be complete scrubbed lines of the input.
+func checkFailingSink(r *en.R, fails *c07.Fails, lines []string) {
+	allowed := map[string]bool{}
+	for _, l := range lines {
+		allowed[scrubString(l+"\n")] = true
+	}
+	// how many bytes the first flush hands over (to choose the failure points)
+	first := len(scrubString(lines[0] + "\n"))
+	for failCall := 1; failCall <= 2; failCall++ {
+		for k := 0; k <= first+2; k++ {
+			rec := &recorder{failCall: failCall, failAfter: k}
+			ls := &LogScrubber{Output: rec}
+			in := map[string]interface{}{"lines": lines, "sink_write_that_fails": failCall, "bytes_accepted_before_the_error": k}
+			panicked, val, stack := en.Try(func() {
+				for _, l := range lines {
+					ls.Write([]byte(l + "\n")) // errors are reported to the caller, which keeps logging
+				}
+				ls.Write([]byte("end\n"))
+			})
+			r.Case(fmt.Sprintf("fs|%d|%d|%s", failCall, k, strings.Join(lines, "\x00")), true)
+			if panicked {
+				fails.Add("failing-sink:panic@"+en.PanicSite(stack), "LogScrubber.Write panicked after a failed flush: "+val+" "+stack, strings.Join(lines, "\n"), in)
+				continue
+			}
+			for _, c := range rec.calls {
+				if !strings.HasSuffix(c, "\n") {
+					fails.Add("failing-sink:incomplete-line-emitted", fmt.Sprintf("after the sink's Write %d failed having accepted %d bytes the sink was handed %q, which does not end a line", failCall, k, c), strings.Join(lines, "\n"), in)
+					break
+				}
+				bad := ""
+				for _, l := range strings.SplitAfter(c, "\n") {
+					if l != "" && !allowed[l] && l != "end\n" {
+						bad = l
+						break
+					}
+				}
+				if bad != "" {
+					fails.Add("failing-sink:not-a-scrubbed-line-of-the-input", fmt.Sprintf("after the sink's Write %d failed having accepted %d bytes the sink was handed %q; the scrubbed input lines are %q", failCall, k, bad, keys(allowed)), strings.Join(lines, "\n"), in)
+					break
+				}
+			}
+		}
+	}
+}
+
+func keys(m map[string]bool) []string {
+	var out []string
+	for k := range m {
+		out = append(out, k)
+	}
+	sort.Strings(out)
+	return out
 }
 
 func checkSplits(r *en.R, fails *c07.Fails, input string) {
